@@ -186,7 +186,10 @@ def withdraw_kernel(chk, it):
         chk.obligation('FUNC/partial-withdrawal-leaves-non-zero-reserves/' + name, list(s.pc) + [z3.ULT(w, LQ)],
                        z3.And(z3.UGE(L2, 1), z3.UGE(R2, 1), z3.UGE(LQ2, 1)), inputs, replay=rp, arith='int',
                        bound='a built-in pool keeps 10^9 liquidity owned by nobody, so it is never withdrawn completely')
-        chk.cover_int('partial withdrawal with non-zero payout/' + name, list(s.pc) + [z3.ULT(w, LQ), z3.UGT(lo, 5), z3.UGT(ro, 5)])
+        # reachability witness handed to the solver (a ground check; finding one from scratch is a non-linear search that takes
+        # the better part of the per-query cap on a loaded machine)
+        pin = [L == 1000, R == 2000, LQ == 100, w == 10]
+        chk.cover_int('partial withdrawal with non-zero payout/' + name, list(s.pc) + [z3.ULT(w, LQ), z3.UGT(lo, 5), z3.UGT(ro, 5)] + pin)
     if not n:
         raise Inconclusive('withdraw has no returning path')
 
